@@ -29,9 +29,8 @@ class Extractor:
     def __init__(self):
         self.tmp = tempfile.mkdtemp(prefix="verif-extract-", dir="/var/tmp")
         src = os.path.join(VERIF, "engine", "circtv", "extract")
-        for f in ("main.go", "stream.go"):
-            if os.path.exists(os.path.join(src, f)):
-                shutil.copy(os.path.join(src, f), self.tmp)
+        for f in [x for x in os.listdir(src) if x.endswith(".go")]:
+            shutil.copy(os.path.join(src, f), self.tmp)
         gomod = open(os.path.join(src, "go.mod")).read().replace("=> /repo", "=> " + REPO)
         open(os.path.join(self.tmp, "go.mod"), "w").write(gomod)
         shutil.copy(os.path.join(REPO, "go.sum"), self.tmp)
@@ -124,7 +123,7 @@ def structural_check(resp):
     return None
 
 
-def miter(out_bits, ref_bits, assumptions, timeout_ms=60000, inputs=None):
+def miter(out_bits, ref_bits, assumptions, timeout_ms=60000, inputs=None, budget_s=None):
     """Per-output-bit incremental discharge with lemma accumulation.
     Returns (status, detail): status in 'unsat' | 'sat' | 'unknown'; for sat
     detail = {'bit': k, 'model': {name: int}}."""
@@ -135,7 +134,11 @@ def miter(out_bits, ref_bits, assumptions, timeout_ms=60000, inputs=None):
         s.add(a)
     queries = 0
     t0 = time.time()
+    if budget_s is None:
+        budget_s = 6 * timeout_ms / 1000.0
     for k in range(len(out_bits)):
+        if time.time() - t0 > budget_s:
+            return "unknown", {"bit": k, "queries": queries, "reason": "miter time budget %.0fs exhausted" % budget_s}
         diff = z3.Xor(out_bits[k], ref_bits[k])
         d = z3.simplify(diff)
         if z3.is_false(d):
